@@ -317,6 +317,11 @@ def run_shards(fn, shards, seed=0, nproc=None, progress=None, pid=None):
                     st, shard, res = it.next(timeout=5)
             except StopIteration:
                 break
+            except (MemoryError, EOFError, OSError, RuntimeError) as e:
+                # a result could not be produced/transferred (e.g. a worker hit its address-space limit while pickling)
+                done += 1
+                errors.append(("?", "%s while receiving a shard result: %s" % (type(e).__name__, e)))
+                continue
             except mp.TimeoutError:
                 if WALL_BUDGET and time.time() - t_start > WALL_BUDGET:
                     total.aborted = True
